@@ -677,7 +677,7 @@ Qed.
 (** what one end-block does to a tracked context: repeated, running, batch [n] started at [h0] *)
 Definition eb_out (s : state) (id : ctxid) (x : context) (n h0 : Z) (post : option context * option Z * option Z) : Prop :=
   let h := height s in let '(cx', ex', nw') := post in
-  (post = loc id s /\ h <> h0 + x_freq x)
+  (post = loc id s /\ h <> h0 + x_freq x /\ get id (expmark s) <> Some h)
   \/ (cx' = None /\ belowb x = false)
   \/ (cx' = Some (x_off x) /\ ex' = None /\ nw' = Some (h0 + x_freq x) /\ h <> h0 + x_freq x)
   \/ (h = h0 + x_freq x /\ exists x', cx' = Some x' /\ x_batch x' = n + 1 /\ x_state x' = 0 /\ x_rep x' = x_rep x
@@ -724,7 +724,7 @@ Proof.
         -- inversion Q2; subst. right. right. left. repeat split; try reflexivity. intros E. apply E2. congruence.
       * cbn [snd] in P2. rewrite Hnn in P2. destruct P2 as [(E2 & _)|(_ & Q2)]; [discriminate|]. inversion Q2; subst. right. left. split; reflexivity.
     + unfold loc at 1 2 in P2. cbn [snd] in P2. rewrite Hnn in P2. destruct P2 as [(E2 & _)|(_ & Q2)]; [discriminate|].
-      left. split; [exact Q2|]. intros E. apply E1. rewrite HA. f_equal. lia.
+      left. split; [exact Q2|]. split; [|exact E1]. intros E. apply E1. rewrite HA. f_equal. lia.
   - (* the next batch is scheduled at h0 + frequency *)
     destruct P1 as [(E1 & _)|(_ & ->)]; [congruence|].
     unfold loc at 1 2 in P2. cbn [snd] in P2. rewrite HBn in P2. destruct P2 as [(E2 & Q2)|(E2 & Q2)].
@@ -732,5 +732,95 @@ Proof.
       destruct (QNx x (get id (expmark s)) Hs Q2) as [(x' & A & B & C & D & E & F & G & H & I)|(x' & A & B & C)].
       * right. right. right. left. split; [congruence|]. exists x'. repeat split; try assumption; congruence.
       * right. right. right. right. split; [congruence|]. exists x'. repeat split; try assumption; congruence.
-    + left. split; [exact Q2|]. intros E. apply E2. unfold loc. cbn [snd]. rewrite HBn. f_equal. lia.
+    + left. split; [exact Q2|]. split; [|rewrite HBe; discriminate]. intros E. apply E2. unfold loc. cbn [snd]. rewrite HBn. f_equal. lia.
+Qed.
+
+(** one end-block on any context: no context appears; a stored one is removed, or keeps its batch
+    counter, or issues exactly the next batch (then it is running and its expiry is registered) *)
+Lemma eb_general c s dt id :
+  QInv s -> LInv false s ->
+  let '(cx', ex', nw') := loc id (end_block c s dt) in
+  match get id (ctxs s) with
+  | None => cx' = None
+  | Some x => cx' = None \/ exists x', cx' = Some x' /\ x_rep x' = x_rep x
+                /\ (x_batch x' = x_batch x
+                    \/ (x_batch x' = x_batch x + 1 /\ x_state x' = 0 /\ ex' = Some (height s + x_timeout x')))
+  end.
+Proof.
+  intros Hq Hl. destruct (end_block_loc' c s dt id Hq Hl) as (mid & P1 & P2).
+  destruct (loc id (end_block c s dt)) as [[cx' ex'] nw'] eqn:El.
+  assert (M : match get id (ctxs s) with None => fst (fst mid) = None
+              | Some x => fst (fst mid) = None \/ exists xm, fst (fst mid) = Some xm /\ x_rep xm = x_rep x /\ x_batch xm = x_batch x end).
+  { destruct P1 as [(_ & Q1)|(_ & ->)].
+    - unfold loc, QE in Q1. destruct mid as [[cxm exm] nwm]. cbn [fst]. destruct (get id (ctxs s)) as [x|].
+      + destruct Q1 as (_ & Q1). destruct (x_off_fields x) as (Ob & _ & Or & _).
+        destruct (x_state x =? 2); [left; tauto|]. destruct (x_state x =? 0); [destruct (belowb x)|]; destruct Q1 as (-> & _);
+          try (left; reflexivity); right; exists (x_off x); repeat split; assumption.
+      + inversion Q1. reflexivity.
+    - unfold loc. cbn [fst]. destruct (get id (ctxs s)) as [x|]; [right; exists x; repeat split|reflexivity]. }
+  destruct mid as [[cxm exm] nwm]. cbn [fst snd] in M, P2.
+  assert (N : match cxm with None => cx' = None
+              | Some xm => exists x', cx' = Some x' /\ x_rep x' = x_rep xm
+                  /\ (x_batch x' = x_batch xm \/ (x_batch x' = x_batch xm + 1 /\ x_state x' = 0 /\ ex' = Some (height s + x_timeout x'))) end).
+  { destruct P2 as [(_ & Q2)|(_ & Q2)].
+    - unfold QN in Q2. destruct cxm as [xm|]; [|inversion Q2; reflexivity]. destruct Q2 as (_ & Q2).
+      destruct (x_state xm =? 0).
+      + destruct Q2 as [(x' & A & B & C & D & E & F & G & H)|(A & _)].
+        * exists x'. split; [exact A|]. split; [exact D|]. right. split; [exact B|]. split; [exact C|]. rewrite E. exact H.
+        * eexists. split; [exact A|]. split; [reflexivity|]. left. reflexivity.
+      + destruct Q2 as (A & _). exists xm. split; [exact A|]. split; [reflexivity|]. left. reflexivity.
+    - inversion Q2; subst. destruct cxm as [xm|]; [|reflexivity]. exists xm. split; [reflexivity|]. split; [reflexivity|]. left. reflexivity. }
+  destruct (get id (ctxs s)) as [x|].
+  - destruct M as [->|(xm & -> & Mr & Mb)]; [left; exact N|]. destruct N as (x' & A & B & C). right. exists x'. split; [exact A|].
+    split; [congruence|]. rewrite <- Mb. exact C.
+  - rewrite M in N. exact N.
+Qed.
+
+Lemma loc_inj id a b : loc id a = loc id b ->
+  get id (ctxs a) = get id (ctxs b) /\ get id (expmark a) = get id (expmark b) /\ get id (newmark a) = get id (newmark b).
+Proof. unfold loc. intros E. injection E as A B C. repeat split; assumption. Qed.
+
+Lemma apply_endblock c s dt : apply c s (EndBlock dt) = if 0 <=? dt then end_block c s dt else s.
+Proof. unfold apply. cbn [exec_step]. destruct (0 <=? dt); reflexivity. Qed.
+
+Lemma TI_end univ c s dt tr pc pn pb :
+  QInv s -> LInv false s -> FB s -> NoDup (keys (ctxs (apply c s (EndBlock dt)))) -> TI s tr ->
+  TI (apply c s (EndBlock dt)) (update_track tr (obs_of univ pc pn pb s) (EndBlock dt) (obs_step univ c s (EndBlock dt))).
+Proof.
+  intros Hq Hl Hfb Hk' Ht id n h0 Hg. rewrite (track_end_get univ c s dt tr id pc pn pb Hk') in Hg.
+  unfold track_g in Hg. cbn [obs_of o_ctxs] in Hg. rewrite (get_map_val ctx_tuple) in Hg.
+  rewrite apply_endblock in Hg |- *. destruct (0 <=? dt).
+  - (* the end blocker runs *)
+    pose proof (eb_general c s dt id Hq Hl) as G.
+    set (s' := end_block c s dt) in *.
+    destruct (loc id s') as [[cx' ex'] nw'] eqn:El. unfold loc in El.
+    pose proof (f_equal (fun t => fst (fst t)) El) as E1. pose proof (f_equal (fun t => snd (fst t)) El) as E2. pose proof (f_equal snd El) as E3.
+    cbn [fst snd] in E1, E2, E3. clear El.
+    rewrite E1 in Hg. destruct cx' as [x'|].
+    2: { destruct (Ht id n h0 Hg) as (Hn & _). split; [exact Hn|]. intros x Hgx. rewrite E1 in Hgx. discriminate. }
+    destruct (get id (ctxs s)) as [x|] eqn:Ex; [|discriminate G].
+    destruct G as [G|(x'' & G0 & Gr & Gb)]; [discriminate G|]. inversion G0; subst x''. clear G0.
+    cbn [option_map ctx_tuple t_batch t_state] in Hg.
+    destruct (x_batch x <? x_batch x') eqn:Elt.
+    + apply Z.ltb_lt in Elt. rewrite get_set_same in Hg. inversion Hg; subst n h0. clear Hg.
+      destruct Gb as [Gb|(Gb & Gs & Ge)]; [lia|]. pose proof (proj1 (Hfb id x Ex)) as Hb0.
+      split; [lia|]. intros x2 Hg2 _. rewrite E1 in Hg2. inversion Hg2; subst x2. split; [exact Gs|]. intros _. left. rewrite E2. exact Ge.
+    + apply Z.ltb_ge in Elt. destruct (x_state x' =? 0) eqn:Es; cbn [negb] in Hg.
+      2: { destruct (get id tr) as [[[n1 h1] b1]|] eqn:Et; [rewrite get_set_same in Hg; discriminate|]. rewrite Et in Hg. discriminate. }
+      apply Z.eqb_eq in Es. destruct Gb as [Gb|(Gb & _)]; [|lia].
+      destruct (Ht id n h0 Hg) as (Hn & Hx). split; [exact Hn|]. intros x2 Hg2 Hb2. rewrite E1 in Hg2. inversion Hg2; subst x2.
+      split; [exact Es|]. intros Hr'. assert (Hr : x_rep x = true) by congruence. assert (Hbn : x_batch x = n) by congruence.
+      pose proof (eb_tracked c s dt id x n h0 Hq Hl (Hfb id x Ex) Ex Hbn (conj Hn Hx) Hr) as O. fold s' in O. unfold eb_out in O. unfold loc at 1 in O. rewrite E1, E2, E3 in O.
+      destruct (Hx x Ex Hbn) as (_ & HAB). specialize (HAB Hr). destruct (x_off_fields x) as (_ & _ & _ & Ot & Of & _).
+      destruct O as [(O & _ & _)|[(O & _)|[(O1 & O2 & O3 & _)|[(_ & x2 & O1 & O2 & _)|(_ & x2 & O1 & _ & O3)]]]].
+      * destruct (loc_inj _ _ _ O) as (O1 & O2 & O3). rewrite E1, Ex in O1. injection O1 as O1. subst x'. rewrite O2, O3. exact HAB.
+      * discriminate O.
+      * injection O1 as O1. subst x'. right. rewrite Of, E2, E3. split; congruence.
+      * injection O1 as O1. subst x2. lia.
+      * injection O1 as O1. subst x2. lia.
+  - (* a rejected end-block: the state is unchanged *)
+    destruct (get id (ctxs s)) as [x|] eqn:Ex; [|exact (Ht id n h0 Hg)].
+    cbn [option_map ctx_tuple t_batch t_state] in Hg. rewrite Z.ltb_irrefl in Hg.
+    destruct (x_state x =? 0); cbn [negb] in Hg; [exact (Ht id n h0 Hg)|].
+    destruct (get id tr) as [[[n1 h1] b1]|] eqn:Et; [rewrite get_set_same in Hg; discriminate|]. rewrite Et in Hg. discriminate.
 Qed.
